@@ -15,6 +15,9 @@ pub struct ImgOpts {
     pub max_extra: usize,
     /// restrict to depths <= 12 and mark 16-bit buffers as sufficient (truthfully)
     pub narrow: bool,
+    /// with `narrow`: samples and residuals use the whole i16 range (13..15 bit samples) and no
+    /// transform is applied, so nothing but the predictors' own arithmetic can leave 16 bits
+    pub narrow_full_range: bool,
     pub allow_float: bool,
     pub allow_squeeze_passes: bool,
     pub ec_dim_shift: bool,
@@ -38,6 +41,7 @@ impl Default for ImgOpts {
             max_dim: 300,
             max_extra: 4,
             narrow: false,
+            narrow_full_range: false,
             allow_float: true,
             allow_squeeze_passes: true,
             ec_dim_shift: true,
@@ -95,6 +99,9 @@ pub fn random_dims(rng: &mut Rng, class: u32, max_dim: u32, gdim: u32) -> (u32, 
 fn random_depth(rng: &mut Rng, opts: &ImgOpts) -> BitDepth {
     if let Some(b) = opts.bit_depth {
         return BitDepth::Int { bits: b };
+    }
+    if opts.narrow && opts.narrow_full_range {
+        return BitDepth::Int { bits: *rng.pick(&[13u32, 14, 15, 15]) };
     }
     if opts.narrow {
         return BitDepth::Int { bits: *rng.pick(&[1u32, 2, 4, 8, 8, 8, 10, 12, 5, 7, 11]) };
@@ -183,7 +190,7 @@ pub fn gen_modular_image(rng: &mut Rng, opts: &ImgOpts) -> Option<ModularImage> 
         // "16-bit buffers suffice" is only claimed for what <= 12-bit samples can produce at
         // any stage (+-(2^12 - 1)): that is the domain the decoder's narrow kernels are written
         // for (e.g. 4a - 3c - b of the squeeze tendency must fit 16 bits).
-        (-4095i64, 4095i64)
+        if opts.narrow_full_range { (i16::MIN as i64, i16::MAX as i64) } else { (-4095i64, 4095i64) }
     } else {
         let m = (sample_hi - sample_lo).max(1);
         ((sample_lo - m).max(i32::MIN as i64 + 1), (sample_hi + m).min(i32::MAX as i64))
@@ -202,7 +209,7 @@ pub fn gen_modular_image(rng: &mut Rng, opts: &ImgOpts) -> Option<ModularImage> 
         local_transform_pct: if opts.allow_local && !wide_values { 15 } else { 0 },
         transforms: opts.force_transforms.clone(),
         // RCT / squeeze arithmetic needs head-room; keep very wide samples untransformed
-        max_transforms: if wide_values { 0 } else { opts.max_transforms },
+        max_transforms: if wide_values || (narrow && opts.narrow_full_range) { 0 } else { opts.max_transforms },
         force_tree: None,
         palette_special: opts.palette_special,
         force_gens: None,
